@@ -833,7 +833,7 @@ func indexRange(idx ssa.Value) (from int64, bound ssa.Value, ok bool) {
 	default:
 		return 0, nil, false
 	}
-	if len(ph.Edges) != 2 {
+	if len(ph.Edges) < 2 {
 		return 0, nil, false
 	}
 	head := ph.Block()
@@ -842,9 +842,18 @@ func indexRange(idx ssa.Value) (from int64, bound ssa.Value, ok bool) {
 	haveInit := false
 	for i, e := range ph.Edges {
 		if head.Dominates(head.Preds[i]) {
+			// several back edges (a `continue` in the body): all carry the same next value
+			if next != nil && next != e {
+				return 0, nil, false
+			}
 			next = e
 		} else if k, isK := core.ConstInt(e); isK {
+			if haveInit && k != init {
+				return 0, nil, false
+			}
 			init, haveInit = k, true
+		} else {
+			return 0, nil, false
 		}
 	}
 	if !haveInit || next == nil {
